@@ -1,6 +1,7 @@
 package apisim
 
 import (
+	"github.com/gorilla/websocket"
 	"encoding/json"
 	"fmt"
 	"math/rand/v2"
@@ -28,6 +29,7 @@ type DBPlan struct {
 	Writes    []DWrite `json:"writes,omitempty"`
 	Veto      bool     `json:"veto,omitempty"`       // a pre-put hook rejects every write to one key
 	SlowQuery int      `json:"slow_query,omitempty"` // >0: this many extra records are stored, and the client of the first connection stops reading for a few seconds after the first record of its first request (a query or qsub) arrived
+	WS        bool     `json:"ws,omitempty"`         // the connections are websocket connections to the package's websocket handler (send queue, writer and handler workers) instead of CreateDatabaseAPI with a send function
 	Stall     int      `json:"stall,omitempty"`      // >0: flood scenario: the first connection's client stops reading after its first notification while another connection makes this many writes
 }
 
@@ -74,6 +76,15 @@ var dGaps = []time.Duration{0, time.Millisecond, 5 * time.Millisecond, 50 * time
 
 func genC13(rng *rand.Rand, tier string) *DBPlan {
 	p := &DBPlan{Backend: []string{"hashmap", "bbolt"}[rng.IntN(2)], Veto: rng.IntN(3) == 0}
+	defer func() {
+		p.WS = rng.IntN(3) == 0
+		switch os.Getenv("VERIF_C13_WS") { // exploration aid
+		case "0":
+			p.WS = false
+		case "1":
+			p.WS = true
+		}
+	}()
 	nc := 1 + rng.IntN(3)
 	kinds := []string{"get", "get", "query", "sub", "qsub", "create", "update", "insert", "delete", "cancel", "raw"}
 	for c := 0; c < nc; c++ {
@@ -211,10 +222,20 @@ type reqRec struct {
 }
 
 type connState struct {
+	ws      *websocket.Conn // with DBPlan.WS
 	api     *api.DatabaseAPI
 	replies []reply
 	reqs    map[string]*reqRec
 	order   []string
+}
+
+// handle sends one message to the database API of the connection.
+func (cs *connState) handle(msg []byte) {
+	if cs.ws != nil {
+		_ = cs.ws.WriteMessage(websocket.TextMessage, msg)
+		return
+	}
+	cs.api.Handle(msg)
 }
 
 type bgWrite struct {
@@ -300,7 +321,7 @@ func execC13(p *DBPlan, rc *simkit.RunCtx) {
 	for ci, msgs := range p.Conns {
 		cs := &connState{reqs: map[string]*reqRec{}}
 		ci := ci
-		a := api.CreateDatabaseAPI(func(data []byte) {
+		onReply := func(data []byte) {
 			if p.SlowQuery > 0 && ci == 0 && !slowDone && strings.Contains(string(data), "|ok|") {
 				slowDone = true
 				time.Sleep(3 * time.Second) // the client does not read for a while
@@ -326,8 +347,29 @@ func execC13(p *DBPlan, rc *simkit.RunCtx) {
 				r.Data = parts[3]
 			}
 			cs.replies = append(cs.replies, r)
-		})
-		cs.api = &a
+		}
+		if p.WS {
+			ws, err := dialWebsocket(4)
+			if err != nil {
+				rc.Fail("C13.harness", "websocket handshake with the database API failed", err.Error())
+				return
+			}
+			cs.ws = ws
+			go func() {
+				// the client: reads what the server sends (and stops reading where the scenario says so)
+				for {
+					_, data, err := ws.ReadMessage()
+					if err != nil {
+						return
+					}
+					onReply(data)
+				}
+			}()
+			rc.Probe("websocket-connection")
+		} else {
+			a := api.CreateDatabaseAPI(onReply)
+			cs.api = &a
+		}
 		s.conns = append(s.conns, cs)
 		ci, msgs := ci, msgs
 		wg.Add(1)
@@ -368,12 +410,12 @@ func execC13(p *DBPlan, rc *simkit.RunCtx) {
 				}
 				cs.reqs[op] = rr
 				cs.order = append(cs.order, op)
-				cs.api.Handle([]byte(msg))
+				cs.handle([]byte(msg))
 				if m.Kind == "cancel" && m.Twice {
 					if t := cs.reqs[rr.Key]; t != nil {
 						t.Cancels++
 					}
-					cs.api.Handle([]byte(msg))
+					cs.handle([]byte(msg))
 				}
 			}
 		}()
@@ -477,12 +519,20 @@ func execC13(p *DBPlan, rc *simkit.RunCtx) {
 			r := cs.reqs[op]
 			if (r.Kind == "sub" || r.Kind == "qsub") && r.CancelledAt == 0 {
 				r.CancelledAt = simrt.Seq()
-				cs.api.Handle([]byte(op + "|cancel"))
+				cs.handle([]byte(op + "|cancel"))
 			}
 		}
 		_ = ci
 	}
 	simrt.AwaitQuiescence(3 * time.Second)
+	for _, cs := range s.conns {
+		if cs.ws != nil {
+			_ = cs.ws.Close()
+		}
+	}
+	if p.WS {
+		simrt.AwaitQuiescence(3 * time.Second)
+	}
 }
 
 func checkC13(p *DBPlan, rc *simkit.RunCtx) {
